@@ -56,22 +56,22 @@ Proof. vm_compute. reflexivity. Qed.
 (* ---- the semantic actions: load of ANY token list is Ok or Exit 1 (a diagnostic is printed on every Exit path of
    the C: err_exit / _errormsg / err + exit(1)) -- never MemErr (xstrdup(NULL) of serial_create, out-of-range
    double -> time_t conversion), never Abort, never Hang *)
-Theorem C18_load_total : forall hl_expand regcomp_ok resolves is_chardev (toks : list token),
-  (exists c, load hl_expand regcomp_ok resolves is_chardev toks = Ok c) \/
-  (exists site, load hl_expand regcomp_ok resolves is_chardev toks = Exit 1 site).
+Theorem C18_load_total : forall hl_expand regcomp_ok resolves is_chardev stale_erange (toks : list token),
+  (exists c, load hl_expand regcomp_ok resolves is_chardev stale_erange toks = Ok c) \/
+  (exists site, load hl_expand regcomp_ok resolves is_chardev stale_erange toks = Exit 1 site).
 Proof. exact load_total. Qed.
 Print Assumptions C18_load_total.
 
 (* ---- an accepted configuration has every element the daemon dereferences unconditionally at run time *)
-Theorem C18_accepted_runs : forall hl_expand regcomp_ok resolves is_chardev (toks : list token) c,
-  load hl_expand regcomp_ok resolves is_chardev toks = Ok c -> mandatory_ok c = true.
+Theorem C18_accepted_runs : forall hl_expand regcomp_ok resolves is_chardev stale_erange (toks : list token) c,
+  load hl_expand regcomp_ok resolves is_chardev stale_erange toks = Ok c -> mandatory_ok c = true.
 Proof. exact load_accepted. Qed.
 Print Assumptions C18_accepted_runs.
 
 (* ---- lexer and parser interleaved as in the C (the parser may exit before the lexer reports its own error) *)
-Theorem C18_conf_init_total : forall hl_expand regcomp_ok resolves is_chardev (files : text -> option text) (main : text),
-  (exists c, conf_init hl_expand regcomp_ok resolves is_chardev files main = Ok c /\ mandatory_ok c = true) \/
-  (exists site, conf_init hl_expand regcomp_ok resolves is_chardev files main = Exit 1 site).
+Theorem C18_conf_init_total : forall hl_expand regcomp_ok resolves is_chardev stale_erange (files : text -> option text) (main : text),
+  (exists c, conf_init hl_expand regcomp_ok resolves is_chardev stale_erange files main = Ok c /\ mandatory_ok c = true) \/
+  (exists site, conf_init hl_expand regcomp_ok resolves is_chardev stale_erange files main = Exit 1 site).
 Proof. exact conf_init_total. Qed.
 Print Assumptions C18_conf_init_total.
 
@@ -85,7 +85,7 @@ node ""n2"" ""d"" ""2""
 alias ""all"" ""n1"""%string.
 
 Example C18_load_nonvacuous_accepted :
-  match conf_init ex_hl (fun _ _ => true) (fun _ _ => true) (fun _ => false) (fun _ => None) ex_conf with
+  match conf_init ex_hl (fun _ _ => true) (fun _ _ => true) (fun _ => false) (fun _ => false) (fun _ => None) ex_conf with
   | Ok c => mandatory_ok c = true /\ length (c_devs c) = 1%nat /\ c_nodes c = [bs "n1"%string; bs "n2"%string] /\
             map d_plugs (c_devs c) = [[(bs "1"%string, Some (bs "n1"%string)); (bs "2"%string, Some (bs "n2"%string))]]
   | _ => False
@@ -93,17 +93,29 @@ Example C18_load_nonvacuous_accepted :
 Proof. vm_compute. repeat split. Qed.
 
 Example C18_load_nonvacuous_no_login :          (* F14: refused at the closing brace of the specification *)
-  conf_init ex_hl (fun _ _ => true) (fun _ _ => true) (fun _ => false) (fun _ => None)
+  conf_init ex_hl (fun _ _ => true) (fun _ _ => true) (fun _ => false) (fun _ => false) (fun _ => None)
     (bs "specification ""s"" { timeout 5 script status { send ""s"" } } device ""d"" ""s"" ""/bin/cat |&"" node ""n"" ""d"""%string)
   = Exit 1 S_NO_LOGIN.
 Proof. vm_compute. reflexivity. Qed.
 
 Example C18_load_nonvacuous_order :             (* a semantic error wins over a later lexer error, as in the C *)
-  conf_init ex_hl (fun _ _ => true) (fun _ _ => true) (fun _ => false) (fun _ => None)
+  conf_init ex_hl (fun _ _ => true) (fun _ _ => true) (fun _ => false) (fun _ => false) (fun _ => None)
     (bs "plug_log_level ""bogus"" include ""missing"" "%string) = Exit 1 S_LOGLEVEL /\
-  conf_init ex_hl (fun _ _ => true) (fun _ _ => true) (fun _ => false) (fun _ => None)
+  conf_init ex_hl (fun _ _ => true) (fun _ _ => true) (fun _ => false) (fun _ => false) (fun _ => None)
     (bs "node ""n"" ""d"" include ""missing"" "%string) = Exit 1 S_INCL_OPEN.
 Proof. vm_compute. split; reflexivity. Qed.
+
+(* ---- the environment oracle [stale_erange] (F30 is not applied): _strtolong tests `errno == ERANGE` without clearing
+   errno, so the exact value LONG_MAX is refused -- with a diagnostic, exit status 1 -- when errno still holds ERANGE
+   from an earlier strtod underflow.  Every theorem above holds for BOTH answers of the oracle. *)
+Example C18_stale_errno_nonvacuous :
+  let conf := bs "specification ""s"" { timeout 1 script login { send ""x"" expect ""(x)"" setplugstate $9223372036854775807 $1 } }
+device ""d"" ""s"" ""/bin/cat |&"" node ""n"" ""d"""%string in
+  (exists c, conf_init ex_hl (fun _ _ => true) (fun _ _ => true) (fun _ => false) (fun _ => false) (fun _ => None) conf = Ok c) /\
+  conf_init ex_hl (fun _ _ => true) (fun _ _ => true) (fun _ => false) (fun _ => true) (fun _ => None) conf
+    = (if errno_cleared_strtol then conf_init ex_hl (fun _ _ => true) (fun _ _ => true) (fun _ => false) (fun _ => false) (fun _ => None) conf
+       else Exit 1 S_LONG_RANGE).
+Proof. vm_compute. split; [eexists; reflexivity | reflexivity]. Qed.
 
 (* ---- numbers.
    (* OPEN *)  C18_numbers (DESIGN §5): "every numeric token that reaches _strtolong/_strtodouble is read from text
